@@ -37,6 +37,10 @@ class Chooser:
         self.dev = 0
         self.pruned = False
         self.bounded = ex.bound is not None
+        # state keys first stored by THIS execution: meeting one of them
+        # again is a cycle of the key, not of the program (loop iterators are
+        # invisible to the key) - never a reason to cut the execution off
+        self.own: set = set()
 
     def beyond_prefix(self) -> bool:
         return len(self.choices) >= len(self.prefix)
@@ -59,12 +63,14 @@ class Chooser:
         else:
             if key is not None and ex.cache is not None:
                 seen = ex.cache.get(key)
-                if seen is not None and (ex.bound is None or
-                                         seen <= self.dev):
+                if seen is not None and key not in self.own and (
+                        ex.bound is None or seen <= self.dev):
                     self.pruned = True
                     ex.pruned += 1
                     raise Pruned()
-                ex.cache[key] = self.dev
+                if seen is None or self.dev < seen:
+                    ex.cache[key] = self.dev
+                self.own.add(key)
             c = 0
         if forced:
             return 0
